@@ -48,7 +48,7 @@ type c32S3 struct {
 	objects map[string]*c32Obj
 	uploads map[string]*c32Upload
 	nextID  int
-	fail    string // operation name that fails on its next call (once)
+	fail    string // operation name that fails on its next call (once); "UploadPart+stored" = the part is stored, then the call fails
 }
 
 func c32NewS3() *c32S3 {
@@ -134,6 +134,8 @@ func (f *c32S3) UploadPart(ctx context.Context, p *s3.UploadPartInput, o ...func
 	if err := f.injected("UploadPart"); err != nil {
 		return nil, err
 	}
+	// "UploadPart+stored": S3 stored the part but the caller sees a failure (response lost)
+	lateErr := f.injected("UploadPart+stored")
 	if p.UploadId == nil || p.Key == nil || p.PartNumber == nil {
 		return nil, c32APIErr("InvalidRequest", "missing field")
 	}
@@ -146,6 +148,9 @@ func (f *c32S3) UploadPart(ctx context.Context, p *s3.UploadPartInput, o ...func
 	}
 	et := c32ETag(data)
 	u.parts[*p.PartNumber] = &c32Part{data: data, etag: et}
+	if lateErr != nil {
+		return nil, lateErr
+	}
 	return &s3.UploadPartOutput{ETag: &et}, nil
 }
 
